@@ -5,6 +5,7 @@ import (
 	"strings"
 
 	"github.com/junioryono/godi/v4/internal/vsched"
+	"github.com/junioryono/godi/v4/verifmc/kit"
 	"github.com/junioryono/godi/v4/verifmc/mc"
 )
 
@@ -76,8 +77,8 @@ func c09Oracle(e *Env, s *vsched.Sched) []Finding {
 func init() {
 	mc.Register(&mc.Check{
 		Prop:        "C09",
-		Rule:        "programs: every multiset of 2 operations (quick: preemption bound 1, bound 2 for 14 core pairs; thorough: bound 2, bound 3 for the core pairs without group resolution) and every multiset of 3 operations that contains a Close / cancel / CreateScope (thorough, bound 1) from a 15-operation alphabet (resolutions of every lifetime, by key and group, on the shared scope / another scope / the provider; scope and child-scope creation; Close of the scope, its parent, the provider; context cancellation), one operation per goroutine on one shared provider, with and without a scoped initializer; all schedules within the preemption bound; a vector-clock happens-before race detector over every field access of godi's own structs runs on every execution. An outcome is the canonical observation string of one execution.",
-		Assume:      []string{"sequentially consistent interleavings at synchronisation granularity; the race detector covers fields of godi's struct types only", "user code (constructors, Close methods) yields on entry"},
+		Rule:        "programs: every multiset of 2 operations (quick: preemption bound 1, bound 2 for 12 core pairs; thorough: bound 2, bound 3 for the core pairs without group resolution) and every multiset of 3 operations that contains a Close / cancel / CreateScope (thorough, bound 1) from a 15-operation alphabet (resolutions of every lifetime, by key and group, on the shared scope / another scope / the provider; scope and child-scope creation; Close of the scope, its parent, the provider; context cancellation), one operation per goroutine on one shared provider, with and without a scoped initializer; plus a scoped initializer that calls back into the container (creates a child scope on its injected Scope) against Close(provider) / CreateScope / a resolution (bound 2/3); all schedules within the preemption bound; a vector-clock happens-before race detector over every field access of godi's own structs runs on every execution. An outcome is the canonical observation string of one execution.",
+		Assume:      []string{"sync.RWMutex is modelled with Go's documented writer preference (a pending Lock excludes new readers), so recursive read-locking under a pending writer deadlocks as in reality", "sequentially consistent interleavings at synchronisation granularity; the race detector covers fields of godi's struct types only", "user code (constructors, Close methods) yields on entry"},
 		MinOutcomes: 10,
 		Jobs: func(tier string) []mc.Job {
 			var jobs []mc.Job
@@ -145,6 +146,26 @@ func init() {
 						exploreScenario(r, sc, mc.Bounds{Preempt: 2, Shard: sh, NShards: 4}, c09Oracle)
 					}})
 				}
+			}
+			// user code calling back into the container: a scoped initializer that creates a child scope on its
+			// injected Scope, while the provider / the parent scope is closed or another scope is created
+			for _, other := range []string{"close-provider", "create-scope", "get-scoped"} {
+				sc := &Scenario{Name: "program/initializer-creates-child+" + other, Spec: mixSpec(false)}
+				sc.Spec.Regs = append(sc.Spec.Regs, kit.Reg{ID: 8, Life: "scoped", Kind: "void", Deps: []kit.Dep{{T: "scope"}}, ChildAt: 3})
+				sc.Setup = []Op{{Kind: "scope", Bind: "s1"}}
+				o := c09Alphabet[other]
+				if o.Kind == "scope" {
+					o.Bind = "n1"
+				}
+				sc.Threads = [][]Op{{{Kind: "scope", Scope: "", Bind: "n0"}}, {o}}
+				sc.Final = []Op{{Kind: "settle"}, {Kind: "close", Scope: ""}, {Kind: "settle"}}
+				pb := 2
+				if tier == "thorough" {
+					pb = 3
+				}
+				jobs = append(jobs, mc.Job{Name: sc.Name, Weight: 25, Run: func(r *mc.Report) {
+					exploreScenario(r, sc, mc.Bounds{Preempt: pb}, c09Oracle)
+				}})
 			}
 			if tier == "thorough" {
 				for i := 0; i < n; i++ {
